@@ -40,9 +40,12 @@
 
    NOT modelled (covered on the real library only, harness/drv_chain.c): dispatch_async_and_wait
    (item run by the drainer through _dispatch_async_and_wait_invoke, dsc_func == NULL return of
-   _dispatch_sync_f_slow), workloops, dispatch_suspend/resume of hierarchy members (Lane.tla
+   _dispatch_sync_f_slow), dispatch_suspend/resume of hierarchy members (Lane.tla
    models them for one lane), legacy retargeting of an active queue, width changes, QoS
    overrides beyond the one-bit max_qos abstraction of DQState.
+
+   A WORKLOOP at the bottom is modelled by spec/Workloop.tla (this module with the bottom lane replaced by the
+   workloop's per-bucket lists and its own RMW loops, spec/WorkloopState.tla).
 
    Decides C03 within the configured bounds: HierarchyExclusion, per-serial-queue FIFO (Order),
    and the inherited AtMostOnce / NoStrand / SyncAfterEnd / WidthOK / reference ledger, and
